@@ -515,6 +515,31 @@ impl Source {
 			})
 		})
 	}
+	/// opens the stream over `bbox`, polls it at most `polls` times - whether or not a tile is
+	/// ready - and drops it: a consumer that goes away while the stream is still assembling its
+	/// next tiles; returns (tiles received, polls that found nothing ready)
+	pub fn stream_abandon_polls(&self, bbox: TileBBox, polls: usize) -> Result<(usize, usize), crate::engine::PanicInfo> {
+		guard(|| {
+			util::block_on(async {
+				let mut s = match self {
+					Source::Reader(r) => r.get_bbox_tile_stream(bbox).await,
+					Source::Op(o) => o.get_tile_stream(bbox).await,
+				};
+				let (mut got, mut pending) = (0, 0);
+				for _ in 0..polls {
+					let next = s.next();
+					futures::pin_mut!(next);
+					match futures::poll!(next) {
+						std::task::Poll::Ready(Some(_)) => got += 1,
+						std::task::Poll::Ready(None) => break,
+						std::task::Poll::Pending => pending += 1,
+					}
+				}
+				drop(s);
+				(got, pending)
+			})
+		})
+	}
 	/// `stream` with recognition of a stream that can never finish (inner `Err`), see
 	/// `util::block_on_detecting_deadlock`
 	#[allow(clippy::type_complexity)]
